@@ -74,6 +74,16 @@ def run(ctx, fa, own):
     ctx.rule = ("seeded generator: schemas over all eight primitives, records, enums, fixed, arrays, maps, unions, by-name and recursive "
                 "references, namespaces (raw or pre-parsed); 1-3 data per schema written back to back; boundary pools for ints, floats, strings, "
                 "collections; non-trivial = schema has >= 2 nodes and some encoding has >= 2 bytes; distinct by SHA-256 of the case")
+    # directed: the 32-bit boundary offered to unions whose int branch comes before long / double (and the other way round)
+    brnd = ctx.sub_rnd("bound")
+    for i in range(24 if ctx.quick() else 240):
+        u = brnd.choice([["int", "long"], ["null", "int", "long"], ["int", "double"], ["long", "int"], ["int", "string", "long"], ["boolean", "int", "long"]])
+        vals = [brnd.choice([2 ** 31, -2 ** 31 - 1, 2 ** 31 - 1, -2 ** 31, 2 ** 63 - 1, -2 ** 63, 0, 1]) for _ in range(3)]
+        raw = u if brnd.random() < 0.4 else {"type": "record", "name": "B", "fields": [{"name": "v", "type": u}, {"name": "w", "type": {"type": "array", "items": u}}]}
+        data = vals if isinstance(raw, list) else [{"v": vals[0], "w": vals[1:]}]
+        c = sl_roundtrip_case(fa, "b%d" % i, raw, data, tuples=True, parsed_form=brnd.random() < 0.4)
+        c["nodes"] = 3
+        cases.append(c)
     core.judge_cases(ctx, cases, "rt", own, nontrivial_fn=nontrivial, describe=describe)
     if own == ("C02.",):
         # the encoder as driven by the container writer: block payloads of Writer-object sessions (failed writes in between, copied blocks)
